@@ -328,6 +328,7 @@ class Daemon(object):
         """
         serializer_id = serializers.MarshalSerializer.serializer_id
         msg_seq = 0
+        current_context.response_annotations = {}   # don't send left-overs of an earlier call with the handshake reply
         try:
             msg = protocol.recv_stub(conn, [protocol.MSG_CONNECT])
             msg_seq = msg.seq
@@ -400,6 +401,9 @@ class Daemon(object):
             # we couldn't even get data from the client, this is an immediate error
             # log.info("error receiving data from client %s: %s", conn.sock.getpeername(), x)
             raise x
+        # every request starts with its own, empty set of response annotations: what an earlier call set
+        # (and didn't get sent, because it raised or was oneway) must never travel with another reply.
+        current_context.response_annotations = {}
         try:
             request_flags = msg.flags
             request_seq = msg.seq
